@@ -11,7 +11,9 @@ use crate::plan::{Op, Plan};
 use crate::rng::{Fnv, Rng};
 use rosu_map::section::hit_objects::{SliderEvent, SliderEventType, SliderEventsIter};
 
-pub struct C20;
+pub struct C20 {
+    pub corpus: std::sync::Arc<crate::corpus::Corpus>,
+}
 
 static PAIRS: crate::engine::PairTable = crate::engine::PairTable::new(&["pollute", "abandon", "run"]);
 
@@ -20,9 +22,103 @@ const VELS: [f64; 6] = [0.1, 0.5, 1.0, 1.4, 3.6, 10.0];
 const TOTALS: [f64; 6] = [50.0, 100.0, 333.3, 1000.0, 2e5, 0.0];
 const STARTS: [f64; 2] = [0.0, 123_456.789];
 
-fn grid_count() -> u64 {
-    6 * RATIOS.len() as u64 * VELS.len() as u64 * TOTALS.len() as u64 * STARTS.len() as u64
+fn encoder_count(tier: Tier) -> u64 {
+    match tier {
+        Tier::Quick => 20_000,
+        Tier::Thorough => 400_000,
+    }
 }
+
+/// Every control-point time the encoder writes must be a control-point time of the map or the closed-form time of a
+/// head / repeat / tail / object end (that is where the encoder collects samples while walking each slider's events).
+fn exec_encoder(plan: &Plan, st: &mut Stats) -> Result<(), Violation> {
+    use rosu_map::section::general::GameMode;
+    use rosu_map::section::hit_objects::HitObjectKind;
+    use rosu_map::Beatmap;
+    let mut map: Beatmap = match rosu_map::from_bytes(&plan.data) {
+        Ok(m) => m,
+        Err(_) => return Ok(()),
+    };
+    let mut allowed: Vec<f64> = Vec::new();
+    allowed.extend(map.control_points.timing_points.iter().map(|p| p.time));
+    allowed.extend(map.control_points.difficulty_points.iter().map(|p| p.time));
+    allowed.extend(map.control_points.effect_points.iter().map(|p| p.time));
+    allowed.extend(map.control_points.sample_points.iter().map(|p| p.time));
+    let mode = map.mode;
+    let mut sliders = 0u64;
+    for h in map.hit_objects.iter_mut() {
+        let start = h.start_time;
+        match &mut h.kind {
+            HitObjectKind::Circle(_) => allowed.push(start),
+            HitObjectKind::Spinner(s) => allowed.push(start + s.duration),
+            HitObjectKind::Hold(o) => {
+                allowed.push(start + o.duration);
+                allowed.push(start);
+            }
+            HitObjectKind::Slider(sl) => {
+                sliders += 1;
+                let spans = f64::from(sl.span_count());
+                let dist = sl.path.curve().dist();
+                let duration = spans * dist / sl.velocity;
+                let span_dur = duration / spans;
+                allowed.push(start + duration);
+                match mode {
+                    GameMode::Osu | GameMode::Catch => {
+                        for k in 0..=sl.span_count() {
+                            allowed.push(start + f64::from(k) * span_dur);
+                        }
+                    }
+                    GameMode::Mania => allowed.push(start),
+                    GameMode::Taiko => {}
+                }
+            }
+        }
+    }
+    st.add("steps.ops_applied", sliders);
+    if sliders > 0 {
+        st.inc("ops.encoder-walked-slider-events");
+    }
+    let mut out = Vec::new();
+    if map.encode(&mut out).is_err() {
+        return Ok(());
+    }
+    let text = String::from_utf8_lossy(&out);
+    let mut in_tp = false;
+    let close = |a: f64, b: f64| a == b || (a - b).abs() <= 1e-6 + 1e-9 * a.abs().max(b.abs());
+    allowed.retain(|t| t.is_finite());
+    allowed.sort_by(f64::total_cmp);
+    for line in text.lines() {
+        if line.starts_with('[') {
+            in_tp = line.trim_end() == "[TimingPoints]";
+            continue;
+        }
+        if !in_tp || line.trim().is_empty() {
+            continue;
+        }
+        let Some(t) = line.split(',').next().and_then(|f| f.trim().parse::<f64>().ok()) else { continue };
+        if !t.is_finite() {
+            continue;
+        }
+        st.inc("steps.encoded-control-lines");
+        let i = allowed.partition_point(|a| *a < t);
+        let ok = allowed.get(i).map_or(false, |a| close(*a, t)) || (i > 0 && close(allowed[i - 1], t));
+        if !ok {
+            return Err(Violation::new(
+                "C20/encoder-event-times",
+                "encoder",
+                format!("the encoder wrote a control-point line at time {t} ({line:?}) which is neither a control-point time of the map nor the closed-form time of any head / repeat / tail / object end (mode {mode:?}, {sliders} sliders)"),
+            ));
+        }
+    }
+    Ok(())
+}
+
+fn grid_count() -> u64 {
+    6 * RATIOS.len() as u64 * VELS.len() as u64 * TOTALS.len() as u64 * STARTS.len() as u64 + EXACT.len() as u64 * 6
+}
+
+/// (length, velocity) pairs whose cut-off `length - 10*velocity` is exactly representable; the tick distance is set to it
+const EXACT: [(f64, f64); 5] = [(500.0, 1.0), (96.0, 0.8), (1000.0, 2.5), (100.0, 10.0), (150_000.0, 3.0)];
 
 fn params_of(op: &Op) -> Params {
     Params { start: op.arg(0), dur: op.arg(1), vel: op.arg(2), tick_dist: op.arg(3), total: op.arg(4), spans: op.iarg(5).clamp(1, 100_000) as i32 }
@@ -35,6 +131,76 @@ fn admissible(p: &Params) -> bool {
     p.start.is_finite() && p.dur.is_finite() && p.dur > 0.0 && p.vel.is_finite() && p.vel > 0.0 && p.total.is_finite() && p.total >= 0.0 && !p.tick_dist.is_nan() && p.tick_dist >= 0.0 && (td == 0.0 || len / td <= 20_000.0) && p.spans >= 1 && f64::from(p.spans) * (if td == 0.0 { 1.0 } else { (len / td).max(1.0) }) <= 300_000.0
 }
 
+/// `nth`, `last`, `count`, `size_hint` and behaviour after exhaustion must agree with the stream seen through `next`.
+fn adaptors(p: &Params, got: &[SliderEvent], shared: &mut Vec<SliderEvent>, salt: usize, st: &mut Stats) -> Result<(), String> {
+    if got.len() > 20_000 {
+        return Ok(());
+    }
+    let same = |a: &SliderEvent, b: &SliderEvent| a.kind == b.kind && a.span_idx == b.span_idx && a.time.to_bits() == b.time.to_bits() && a.path_progress.to_bits() == b.path_progress.to_bits() && a.span_start_time.to_bits() == b.span_start_time.to_bits();
+    st.inc("ops.iterator-adaptor-checks");
+    // nth hops (sizes derived from the operation's position: deterministic)
+    {
+        let mut it = SliderEventsIter::new(p.start, p.dur, p.vel, p.tick_dist, p.total, p.spans, shared);
+        let mut pos = 0usize;
+        let mut step = 0usize;
+        loop {
+            let (lo, hi) = it.size_hint();
+            let remaining = got.len() - pos.min(got.len());
+            if lo > remaining {
+                return Err(format!("size_hint: lower bound {lo} exceeds the {remaining} events that remain at position {pos}"));
+            }
+            if let Some(h) = hi {
+                if h < remaining {
+                    return Err(format!("size_hint: upper bound {h} below the {remaining} events that remain at position {pos}"));
+                }
+            }
+            let hop = (salt * 7 + step * 3 + got.len()) % 5;
+            step += 1;
+            match (it.nth(hop), got.get(pos + hop)) {
+                (Some(a), Some(b)) if same(&a, b) => pos += hop + 1,
+                (None, None) => break,
+                (a, b) => return Err(format!("nth: nth({hop}) at position {pos} returned {a:?}, the stream seen through next() has {b:?} there")),
+            }
+        }
+        if it.next().is_some() {
+            return Err("after-exhaustion: next() yields an event after the iterator returned None".into());
+        }
+    }
+    {
+        let it = SliderEventsIter::new(p.start, p.dur, p.vel, p.tick_dist, p.total, p.spans, shared);
+        let n = it.count();
+        if n != got.len() {
+            return Err(format!("count: count() is {n}, next() produced {} events", got.len()));
+        }
+    }
+    {
+        let it = SliderEventsIter::new(p.start, p.dur, p.vel, p.tick_dist, p.total, p.spans, shared);
+        match (it.last(), got.last()) {
+            (Some(a), Some(b)) if same(&a, b) => {}
+            (None, None) => {}
+            (a, b) => return Err(format!("last: last() on a fresh iterator returned {a:?}, the stream ends with {b:?}")),
+        }
+    }
+    {
+        let mut it = SliderEventsIter::new(p.start, p.dur, p.vel, p.tick_dist, p.total, p.spans, shared);
+        for _ in it.by_ref() {}
+        if let Some(e) = it.last() {
+            return Err(format!("after-exhaustion: last() on a fully drained iterator returned {e:?}"));
+        }
+    }
+    {
+        // skip / step_by are built on nth
+        let it = SliderEventsIter::new(p.start, p.dur, p.vel, p.tick_dist, p.total, p.spans, shared);
+        let k = 1 + salt % 3;
+        let via: Vec<SliderEvent> = it.skip(k).step_by(2).collect();
+        let want: Vec<&SliderEvent> = got.iter().skip(k).step_by(2).collect();
+        if via.len() != want.len() || via.iter().zip(&want).any(|(a, b)| !same(a, b)) {
+            return Err(format!("skip-step_by: skip({k}).step_by(2) yields {} events, expected {}", via.len(), want.len()));
+        }
+    }
+    Ok(())
+}
+
 fn gen_params(rng: &mut Rng) -> [f64; 6] {
     let spans = if rng.chance(1, 50) {
         1 + rng.below(300)
@@ -45,8 +211,19 @@ fn gen_params(rng: &mut Rng) -> [f64; 6] {
     } as f64;
     let total = *rng.pick(&[50.0, 100.0, 1000.0, 333.3, 1e5, 2e5, 0.5, 150_000.0, 0.0]) * (0.5 + rng.unit());
     let ratio = *rng.pick(&RATIOS);
-    let td = if ratio == 0.0 || ratio.is_infinite() { ratio } else { ratio * total * (0.9 + 0.2 * rng.unit()) };
-    let vel = *rng.pick(&VELS) * (0.5 + rng.unit());
+    let mut td = if ratio == 0.0 || ratio.is_infinite() { ratio } else { ratio * total * (0.9 + 0.2 * rng.unit()) };
+    let vel = if rng.chance(1, 4) { *rng.pick(&VELS) } else { *rng.pick(&VELS) * (0.5 + rng.unit()) };
+    if rng.chance(1, 12) {
+        // tick distance exactly at (or one ulp around) the cut-off: length - 10 ms of travel
+        let cut = total.min(100_000.0) - 10.0 * vel;
+        if cut > 0.0 {
+            td = match rng.below(3) {
+                0 => cut,
+                1 => f64::from_bits(cut.to_bits() + 1),
+                _ => f64::from_bits(cut.to_bits() - 1),
+            };
+        }
+    }
     let dur = if total > 0.0 { total / vel * (0.9 + 0.2 * rng.unit()) } else { 1.0 + 100.0 * rng.unit() };
     let start = *rng.pick(&[0.0, 1000.0, -500.0, 123_456.789]);
     [start, dur, vel, td, total, spans]
@@ -60,7 +237,7 @@ impl Scenario for C20 {
         "exploration"
     }
     fn rule(&self) -> String {
-        "Histories of iterators sharing one tick buffer: ops {pollute the buffer with n foreign events, construct an iterator and abandon it after j events, construct and run to completion}. (1) a grid span counts 1..6 x 11 tick-distance/length ratios (incl. 0, tiny, > 1, inf) x 6 velocities x 6 lengths (incl. zero and beyond MAX_LEN) x 2 start times, each run on a polluted buffer — enumerated; (2) seeded histories of 1..8 ops with real-valued parameters in playable ranges, occasionally hundreds / 9001 spans. Every completed stream: eager reference from the statement (structure exact, numbers within 1e-9 relative, tick-count boundary tolerance-aware), chronological ticks, identical tick placement on every span, bit-identical to the stream from a fresh buffer, zero tick distance => no ticks but every repeat. distinct_nontrivial = distinct plan hashes containing a run preceded by pollution or an abandoned iterator.".into()
+        "Three families; the third is the library's own caller — encoder-as-caller: bundled / generated maps (extra sliders with repeats, per-node samples, declared lengths that differ from the path length) are decoded and encoded; every control-point time the encoder writes must be a control-point time of the map or the closed-form time of a head / repeat / tail / object end. Histories of iterators sharing one tick buffer: ops {pollute the buffer with n foreign events, construct an iterator and abandon it after j events, construct and run to completion}. (1) a grid span counts 1..6 x 11 tick-distance/length ratios (incl. 0, tiny, > 1, inf) x 6 velocities x 6 lengths (incl. zero and beyond MAX_LEN) x 2 start times, each run on a polluted buffer — enumerated; (2) seeded histories of 1..8 ops with real-valued parameters in playable ranges, occasionally hundreds / 9001 spans. Every completed stream: eager reference from the statement (structure exact, numbers within 1e-9 relative, tick-count boundary tolerance-aware), chronological ticks, identical tick placement on every span, bit-identical to the stream from a fresh buffer, zero tick distance => no ticks but every repeat; the same stream through nth / skip / step_by / count / last, size_hint bounds honoured, nothing after exhaustion. distinct_nontrivial = distinct plan hashes containing a run preceded by pollution or an abandoned iterator.".into()
     }
     fn assumptions(&self) -> Vec<String> {
         vec![
@@ -77,9 +254,20 @@ impl Scenario for C20 {
                 Tier::Quick => 150_000,
                 Tier::Thorough => 12_000_000,
             }
+            + encoder_count(tier)
     }
     fn plan(&self, seed: u64, idx: u64, _tier: Tier) -> Plan {
-        if idx < grid_count() {
+        let plain = grid_count() - EXACT.len() as u64 * 6;
+        if idx >= plain && idx < grid_count() {
+            let k = idx - plain;
+            let (total, vel) = EXACT[(k / 6) as usize];
+            let spans = 1 + k % 6;
+            let td = total.min(100_000.0) - 10.0 * vel;
+            let mut p = Plan::new("C20", "grid-exact-cutoff", seed, idx);
+            p.ops.push(Op::new("run", &[0.0, total.min(100_000.0) / vel, vel, td, total, spans as f64]));
+            return p;
+        }
+        if idx < plain {
             let mut k = idx;
             let spans = 1 + k % 6;
             k /= 6;
@@ -98,6 +286,50 @@ impl Scenario for C20 {
             return p;
         }
         let mut rng = Rng::for_run(seed, "C20", idx);
+        if idx >= self.total_runs(_tier) - encoder_count(_tier) {
+            // the library's own caller: the encoder derives the parameters of each slider and walks its events with one
+            // shared tick buffer to place sample points at head / repeat / tail times
+            let mut p = Plan::new("C20", "encoder-as-caller", seed, idx);
+            let mut text = if rng.chance(1, 2) {
+                let f = self.corpus.pick(&mut rng, 25);
+                p.note = self.corpus.files[f].0.clone();
+                crate::corpus::file_text(&self.corpus.files[f].1)
+            } else {
+                crate::corpus::gen_osu(&mut rng)
+            };
+            if rng.chance(1, 2) {
+                text = crate::corpus::set_mode(&text, *rng.pick(&[0i64, 0, 2, 2, 1, 3]));
+            }
+            if !text.contains("[HitObjects]") {
+                text.push_str("\n[HitObjects]\n");
+            } else if !text.ends_with('\n') {
+                text.push('\n');
+            }
+            if text.trim_end().ends_with("[HitObjects]") || rng.chance(1, 2) {
+                let mut t = rng.range(0, 4000);
+                for _ in 0..1 + rng.below(6) {
+                    // sliders with repeats and per-node samples of distinct volumes, some with a declared length that
+                    // differs from the path's own length (doubled last anchor)
+                    let (x, y) = (rng.range(0, 512), rng.range(0, 384));
+                    let (ax, ay) = (rng.range(0, 512), rng.range(0, 384));
+                    let path = match rng.below(4) {
+                        0 => format!("L|{ax}:{ay}|{ax}:{ay}"),
+                        1 => format!("B|{ax}:{ay}|{}:{}", rng.range(0, 512), rng.range(0, 384)),
+                        2 => format!("P|{ax}:{ay}|{}:{}", rng.range(0, 512), rng.range(0, 384)),
+                        _ => format!("L|{ax}:{ay}"),
+                    };
+                    let slides = 1 + rng.below(4);
+                    let len = *rng.pick(&["", "100", "300", "37.5", "600"]);
+                    let nodes: Vec<String> = (0..=slides).map(|_| rng.below(16).to_string()).collect();
+                    let sets: Vec<String> = (0..=slides).map(|_| format!("{}:{}", rng.below(4), rng.below(4))).collect();
+                    let lenf = if len.is_empty() { String::from(",") } else { format!(",{len}") };
+                    text.push_str(&format!("{x},{y},{t},2,{},{path},{slides}{lenf},{},{},{}:{}:{}:{}:\n", rng.below(16), nodes.join("|"), sets.join("|"), rng.below(4), rng.below(4), rng.below(3), *rng.pick(&[0, 30, 70, 100])));
+                    t += rng.range(200, 3000);
+                }
+            }
+            p.data = text.into_bytes();
+            return p;
+        }
         let mut p = Plan::new("C20", "shared-buffer-history", seed, idx);
         let n = 1 + rng.below(8);
         for _ in 0..n {
@@ -117,6 +349,9 @@ impl Scenario for C20 {
         p
     }
     fn execute(&self, plan: &Plan, st: &mut Stats) -> Result<(), Violation> {
+        if plan.scen == "encoder-as-caller" {
+            return exec_encoder(plan, st);
+        }
         let mut shared: Vec<SliderEvent> = Vec::new();
         let mut h = Fnv::new();
         let mut dirty = false;
@@ -215,6 +450,8 @@ impl Scenario for C20 {
                     if let Err(what) = check(&p, &got) {
                         return Err(Violation::new("C20/reference-mismatch", what.split(|c: char| c == ':' || c.is_ascii_digit()).next().unwrap_or("ref").trim(), format!("op #{i} ({}): {what}", desc())));
                     }
+                    // (e) the stream is the same through every Iterator entry point, on the shared buffer
+                    adaptors(&p, &got, &mut shared, i, st).map_err(|what| Violation::new("C20/iterator-api-inconsistent", what.split(':').next().unwrap_or("api"), format!("op #{i} ({}): {what}", desc())))?;
                     dirty = false;
                 }
                 _ => {}
@@ -224,6 +461,9 @@ impl Scenario for C20 {
         Ok(())
     }
     fn nontrivial(&self, plan: &Plan) -> bool {
+        if plan.scen == "encoder-as-caller" {
+            return true;
+        }
         let mut dirty = false;
         for o in &plan.ops {
             match o.k.as_str() {
@@ -245,6 +485,8 @@ impl Scenario for C20 {
             "probe.zero-tick-distance-with-repeats",
             "probe.length-beyond-MAX_LEN",
             "probe.run-after-pollution-or-abandon",
+            "ops.iterator-adaptor-checks",
+            "ops.encoder-walked-slider-events",
         ]
     }
 }
